@@ -99,6 +99,15 @@ PROPS_ALL["C15"] = dict(cache_prop(
     "C15", "Coq proof (literal purity + metamorphic theorem by induction over insertions for the concurrent cache; identity / maintenance-only frame lemmas for the single-threaded cache) + metamorphic differential runs on the implementation",
     "Theorems: for the concurrent cache model, for ALL histories h and ALL ways h' of inserting contains_key/iter calls, h' runs to the same final state with identical results for the operations of h (and conversely); for the single-threaded cache model iteration is the identity on the state and contains_key is exactly the maintenance every operation starts with (never touching sketch, timestamps or the relative recency order of what it leaves). The single-threaded metamorphic theorem outside the class PendingExcessAtObservation is in Unsync/UPurity.v (in progress); inside that class the property is genuinely violated by the unchanged code (recorded known finding D-U5, reproduced on every run). Tie: metamorphic pairs are run on the real caches (all original outputs must coincide; inserted calls must leave the internal state of the concurrent cache / of iter untouched), plus the usual lock-step of both runs against the models."), module="p_meta")
 
+NOTE_CONC = ("Trusted/assumed (not proved): sequential consistency of the atomics (Acquire/Release/Relaxed are modelled as SC), DashMap's per-key "
+             "linearisability and iterator contract, crossbeam-channel's bounded FIFO semantics, the OS scheduler; the controlled scheduler only "
+             "interleaves at the instrumented switch points inside /repo (cfg-guarded, add-only). ")
+
+PROPS_ALL["C02"] = dict(cache_prop(
+    "C02", "Coq proof (trace induction over an abstract concurrent-cell model, all interleavings) + controlled-scheduler replay of the real cache with acceptance of the action traces by the extracted model + interval-based coherence oracle + uncontrolled stress",
+    "Theorems (Conc/Cell.v) for ALL interleavings of ANY number of threads: a get returns nothing or the value of the latest write action on its key (never superseded, removed or phantom), observed values never go backwards in the order the writes took effect, and after all threads stop each key holds nothing or the last value written; maintenance can only remove. PARTIAL (runtime behaviour the model cannot exhibit): that the real cache's operations perform exactly one such atomic map action each is checked, not proved: every run, small concurrent programs (2-4 threads x 1-6 ops, 1-3 keys, capacities none/1..4, ttl/tti/weigher) are executed with real threads under the baton-passing scheduler (unpreempted, random, every single preemption point, sampled pairs), the map actions ordered by their linearisation step must be accepted by the extracted cell model, and an oracle over operation intervals (independent of the hooks) plus uncontrolled real-thread stress runs look for a concrete incoherent history.",
+    note_extra=NOTE_CONC), module="p_conc")
+
 # Only properties whose whole pipeline is in place are claimed in MANIFEST.json.
-CLAIMED = ["C14", "C01", "C05", "C06", "C07", "C16", "C08", "C10", "C11", "C17", "C15"]
+CLAIMED = ["C14", "C01", "C05", "C06", "C07", "C16", "C08", "C10", "C11", "C17", "C15", "C02"]
 PROPS = {k: v for k, v in PROPS_ALL.items() if k in CLAIMED}
